@@ -149,6 +149,15 @@ int selftest(bool verbose)
     }
   }
 
+  // symmetric eigenvalues
+  {
+    Mat Q = expm(L_SO3()->hat((Vec(3) << 0.3L, -1.1L, 0.7L).finished()));
+    Mat D = Mat::Zero(3, 3);
+    D(0, 0) = 1e-12L; D(1, 1) = 2; D(2, 2) = 5e6L;
+    const Vec ev = eigvals_sym(Q * D * Q.transpose());
+    check("eigvals_sym small", fabsl(ev(0) - 1e-12L), 1e-18L * 5e6L);
+    check("eigvals_sym large", fabsl(ev(2) - 5e6L) / 5e6L, 1e-17L);
+  }
   // jets
   {
     const LayoutP lp3 = L_SE3();
